@@ -49,6 +49,10 @@ def _mk():
     S["unused_parray"] = hdr + parr("p0", "int", 2) + parr("p1", "int", 2) + ["Rgate(p1) | %(m)s"]
     S["index_into_parray"] = hdr + parr("p0", "float", 3) + ["Rgate(p0[1]) | %(m)s", "Dgate(p0) | %(m)s"]
     S["pname_like_plain_names"] = hdr + parr("px", "float", 2) + parr("pp1", "float", 2) + ["float p = %(f)s", "Gate(px, pp1, p) | %(m)s"]
+    S["pnames_with_suffix"] = hdr + parr("p0_shift", "float", 2) + parr("p12b", "int", 2) + parr("p_1", "float", 2) + parr("P0", "float", 2) + parr("p1", "float", 2) + [
+        "Gate(p0_shift, p12b, k=p_1) | %(m)s", "Gate(P0, p1) | %(m)s"]
+    S["parray_after_loop"] = hdr + parr("p1", "float", 2) + ["for int i in [%(m)s, %(m)s]", "    Dgate(%(f)s) | i", "Rgate(p1, k=p1) | %(m)s", "for int j in 0:2", "    Vac | j", "Sgate(p1) | %(m)s"]
+    S["plain_array_like_parray"] = hdr + parr("p0", "float", 2) + parr("B", "float", 2) + parr("p1", "int", 2) + parr("C", "int", 2) + ["Rgate(p0) | %(m)s", "Rgate(B, k=C) | %(m)s", "Gate(C, p1) | %(m)s"]
     S["parray_first_then_scalar_same_stmt"] = hdr + parr("p0", "float", 2) + ["float y = %(f)s", "Gate(p0, y, k=y, j=p0) | %(m)s"]
     # not tdm: the same names are ordinary arrays, passed by value
     nothdr = ["name plain", "version 1.0", ""]
